@@ -108,3 +108,24 @@ Definition check_join (i : input) (o : obs) : N :=
 (* C11: the observable is whether the caller's document differs from its state before the call.
    A Gallina evaluation cannot mutate anything, so the model's answer is always "unchanged". *)
 Definition check_pure (i : input) (changed : bool) : N := if changed then 3%N else 0%N.
+
+(* C12: user function IDF (identity) with any qualifier; joins compared as multisets *)
+Definition c12_call (qual name : string) (args : list value) (cur : row) : res raw :=
+  if String.eqb name "idf" then
+    match args with [x] => Ok (RVal x) | _ => Err end
+  else OutOfModel.
+
+Fixpoint from_has_join (f : from_clause stmt) : bool :=
+  match f with FJoin _ _ _ _ _ => true | _ => false end.
+Definition stmt_has_join (q : stmt) : bool :=
+  match q with SSelect s => from_has_join (s_from s) | _ => false end.
+
+Definition check_c12 (i : input) (o : obs) : N :=
+  let '(wrapped, doc, q) := i in
+  let m := api_run c12_call exec_join fuel wrapped doc q in
+  match m, o with
+  | OutOfModel, _ => 4
+  | Ok a, Ok b => if (if stmt_has_join q then perm_eqb a b else list_veqb a b) then 0 else 3
+  | Err, Err => 0
+  | _, _ => 3
+  end%N.
